@@ -38,6 +38,7 @@ package k8s
 //@   loop 1 invariant forall j :: i < j && j <= len(s) - 3 ==> s[j] == '\\'
 
 //@ func (*MultilineAction).resetLogBuf
+//@   option check-nil yes
 //@   requires len(p.eventBuf) >= 1
 //@   modifies p.eventBuf, p.eventSize, p.cutOffEvent
 //@   ensures len(p.eventBuf) == 1 && p.eventSize == 0 && !p.cutOffEvent
